@@ -115,6 +115,7 @@ type Env struct {
 	GoCache  string
 	Home     string
 	Watchdog time.Duration
+	Extra    []string // additional environment of the tool processes (variables that are no input of moq)
 }
 
 func EnvFromOS() Env {
@@ -146,6 +147,10 @@ func (e Env) ToolEnv(c *Case, world string) []string {
 		"GOMAXPROCS=2",
 		"GOGC=400",
 	}
+	if d := os.Getenv("VP_COVER"); d != "" {
+		env = append(env, "GOCOVERDIR="+d)
+	}
+	env = append(env, e.Extra...)
 	if c != nil && c.Gopath {
 		env = append(env, "GO111MODULE=off", "GOPATH="+world)
 	} else {
